@@ -2,7 +2,8 @@
 
 In spec/Ceremony.tla the trait call is DEFINED as the direct step sequence, so the obligation is conformance: every
 behaviour explored for C02-C05, C07 and C11 (successful and failing, faults, cancellation) and getInfo in every
-configuration, and every status byte a store call can fail with (CerMC_C18status.cfg), is run twice on authenticators in the same state - through the direct method and through
+configuration, and every status byte a store call can fail with (CerMC_C18status.cfg), and commands that follow an abandoned or failed
+command on the same authenticator (CerMC_C18after.cfg), is run twice on authenticators in the same state - through the direct method and through
 <Authenticator as Ctap2Api> - as adjacent runs; invariant C18.SameAsDirect (spec/CerProps.tla) demands the same
 terminal event (result with all relying-party verdicts, cancellation point), the same final store and the same number
 of store calls / prompts, and no crash or hang.  The runs execute in isolated child processes (a stack overflow or
@@ -16,7 +17,7 @@ from lib import vlib
 LEVEL = "model_checking"
 PREFIXES = ["C18.", "Any.Crash"]
 # (configuration, sampling stride in the quick tier; 0 = thorough tier only)
-CONFIGS = [("C18info", 1), ("C18status", 1), ("C11", 1), ("C04", 1), ("C02hist", 1), ("C03", 2), ("C05ref", 0), ("C07", 6)]
+CONFIGS = [("C18info", 1), ("C18status", 1), ("C18after", 1), ("C11", 1), ("C04", 1), ("C02hist", 1), ("C03", 2), ("C05ref", 0), ("C07", 6)]
 
 
 def via_trait(b):
@@ -59,9 +60,21 @@ def run(chk):
             both.append(b)
             both.append(via_trait(b))
         cerlib.replay_and_validate(chk, both, "C18-" + cfgname, PREFIXES, isolate=True)
+    # "terminates", model side: under weak fairness every plan of these configurations runs to its end
+    for base in (("C18info", "C03", "C07", "C11client") if thorough else ("C18info",)):
+        cfg = "CerMC_%slive.cfg" % base
+        r = vlib.tlc("CerMC.tla", cfg, chk.work, workers=6, timeout=3600, xmx="8g")
+        if r.temporal_violated or r.invariant_violated:
+            chk.violation({"inv": "model:Termination", "cfg": cfg},
+                          "the model (CerMC.tla, %s) has a fair behaviour in which a ceremony never ends, or violates %s" % (cfg, r.invariant_violated[:1]),
+                          {"kind": "tlc", "cfg": cfg, "out": r.out[-5000:]})
+            continue
+        vlib.tlc_must_complete(r, cfg)
+        chk.cov["model_runs"].append({"cfg": cfg, "distinct_states": r.distinct, "states_generated": r.generated, "depth": r.depth,
+                                      "temporal": "<>Done under WF_vars(Next): holds"})
     cerlib.finish_cov(chk, "each behaviour of the C02-C05/C07/C11 configurations and getInfo in every configuration, run through the direct method and through the trait (adjacent runs); "
                            "quick tier samples 1/6 of C07 and 1/2 of C03 and leaves C05ref to the thorough tier",
-                      False, "conformance over the behaviour sets of the other ceremony checks; termination is observed, not proved")
+                      False, "conformance over the behaviour sets of the other ceremony checks; termination: a liveness property of the model (FairSpec => <>Done), observed on the code (a ceremony polled 100 000 times without ending is recorded as Hung)")
 
 
 def replay(chk, path):
